@@ -24,7 +24,24 @@ MODEL_ASSUMPTIONS = [
     "automatic timestamps are read back through the H4 accessor after each call",
 ]
 
+def _crash(mode, wq, wt, cuts_q=140, cuts_t=400):
+    def f(tier):
+        if tier == "quick":
+            return [{"engine": "crash", "args": {"mode": mode, "workloads": wq, "cuts": cuts_q}}]
+        return [{"engine": "crash", "shards": 4, "args": {"mode": mode, "workloads": wt, "cuts": cuts_t, "threads": 24}}]
+    return f
+
+
+CRASH_ASSUMPTIONS = [
+    "crash model: writes reach the device in issue order; a completed fsync makes everything issued before it durable; writes since the last completed fsync are lost independently and one may be torn at 512-byte sector granularity; file size is stable (block-device abstraction, not a model of a particular filesystem)",
+    "device trace taken by hook H1 inside DiskIO (io_uring SQEs are observed at submission); the DiskIO write guard serialises writers so the trace order is the device order",
+    "images are recovered by the real FeoxStore opened read-write (TTL off, so expired generations stay visible to the oracle)",
+]
+
 PLAN = {
+    "C02": {"level": "fault_enumeration", "engines": _crash("ack", 14, 240), "min_nontrivial": 200, "assumptions": CRASH_ASSUMPTIONS},
+    "C03": {"level": "fault_enumeration", "engines": _crash("all", 14, 240), "min_nontrivial": 200, "assumptions": CRASH_ASSUMPTIONS},
+    "C04": {"level": "fault_enumeration", "engines": _crash("idem", 4, 60, cuts_q=50, cuts_t=120), "min_nontrivial": 50, "assumptions": CRASH_ASSUMPTIONS},
     "C01": {"level": "exploration", "engines": _model("all"), "min_nontrivial": 500, "assumptions": MODEL_ASSUMPTIONS},
     "C10": {"level": "exploration", "engines": _model("layout", quick_programs=24, thorough_programs=400), "min_nontrivial": 300,
             "assumptions": MODEL_ASSUMPTIONS + ["independent codec M6 (harness/src/indep.rs) is the reader; it shares no code with feoxdb"]},
